@@ -834,7 +834,10 @@ func runOpens(work string, r *rand.Rand, env *c05Env, m *c05Markers, in C05Input
 	nAlt := map[string]int{}
 	prev := s.right() // the process has just opened the original successfully
 	first := prev
-	for _, t := range genTampers(r, env, s.keys, m, work, thorough) {
+	tampers := genTampers(r, env, s.keys, m, work, thorough)
+	// foreign keys first (so that they are also the first to be reported), then the alterations
+	sort.SliceStable(tampers, func(i, j int) bool { return tampers[i].class == "foreign-kek" && tampers[j].class != "foreign-kek" })
+	for _, t := range tampers {
 		if only != nil && (only.Class != t.class || only.Detail != t.detail) {
 			continue
 		}
